@@ -7,15 +7,21 @@
 package c09
 
 import (
+	"bytes"
 	"context"
 	"fmt"
 	"net"
+	"runtime"
 	"strings"
 	"testing"
 	"testing/synctest"
+	"time"
 
 	"github.com/ipfs/go-cid"
 	"github.com/ipni/go-libipni/announce"
+	"github.com/ipni/go-libipni/announce/message"
+	"github.com/libp2p/go-libp2p"
+	pubsub "github.com/libp2p/go-libp2p-pubsub"
 	"github.com/libp2p/go-libp2p/core/peer"
 	"github.com/multiformats/go-multiaddr"
 
@@ -425,10 +431,238 @@ func layer3(t *testing.T, r *vp.Recorder, maxLen int) {
 	}
 }
 
+// ---- layer 4: the pubsub path. A single libp2p host without transports and
+// a gossipsub topic inside a synctest bubble; messages are published on the
+// topic under arbitrary author identities (pubsub.WithSecretKeyAndPeerId).
+// Quiescence decides "delivered" and, which no timeout could, "not delivered".
+type psym struct {
+	name string
+	// author / origin: 0 none, else index into idents
+	author, origin int
+	malformed      bool
+	direct         bool // Receiver.Direct with resend on, instead of a pubsub message
+	repeatCid      bool // reuse the CID of the previous step
+}
+
+func layer4(t *testing.T, r *vp.Recorder, depth int) {
+	const (
+		iSelf = iota
+		iF
+		iR
+		iO
+		iDenied
+	)
+	syms := []psym{
+		{name: "plain-from-F", author: iF},
+		{name: "republished-by-R-for-O", author: iR, origin: iO},
+		{name: "republished-by-R-for-denied", author: iR, origin: iDenied},
+		{name: "plain-from-denied", author: iDenied},
+		{name: "republished-by-denied-for-O", author: iDenied, origin: iO},
+		{name: "own-republication-for-O", author: iSelf, origin: iO},
+		{name: "malformed-from-F", author: iF, malformed: true},
+		{name: "direct-announce-of-O-with-resend", direct: true, origin: iO},
+		{name: "plain-from-F-same-cid-again", author: iF, repeatCid: true},
+		{name: "republished-by-R-for-O-same-cid-again", author: iR, origin: iO, repeatCid: true},
+	}
+	var rec func(seq []int)
+	rec = func(seq []int) {
+		if len(seq) > 0 {
+			var names []string
+			for _, i := range seq {
+				names = append(names, syms[i].name)
+			}
+			key := "pubsub|" + strings.Join(names, ";")
+			if r.Mine(key) {
+				r.Eval(key, true)
+				r.Trace(1)
+				r.Transition(int64(len(seq)))
+				r.State(key)
+				var bad, cls string
+				thirdParty := 0
+				func() {
+					defer func() {
+						if e := recover(); e != nil {
+							if s := fmt.Sprint(e); strings.Contains(s, "blocked goroutines remain") || strings.Contains(s, "deadlock") {
+								// which goroutines remained was judged inside the bubble (only a
+								// goroutine with a frame of this library counts); a third-party
+								// straggler is noted, not reported
+								r.Count("bubbles_ended_with_third_party_goroutines", 1)
+								return
+							}
+							panic(e)
+						}
+					}()
+					synctest.Test(t, func(t *testing.T) {
+						idents := []*fixture.Identity{fixture.Key("ed25519", 20), fixture.Key("ed25519", 21), fixture.Key("ed25519", 22), fixture.Key("ed25519", 23), fixture.Key("ed25519", 24)}
+						deniedID := idents[iDenied].ID
+						h, err := libp2p.New(libp2p.NoListenAddrs, libp2p.Identity(idents[iSelf].Priv))
+						if err != nil {
+							panic(err)
+						}
+						psCtx, psCancel := context.WithCancel(context.Background())
+						ps, err := pubsub.NewGossipSub(psCtx, h)
+						if err != nil {
+							panic(err)
+						}
+						topic, err := ps.Join("/indexer/ingest/c09")
+						if err != nil {
+							panic(err)
+						}
+						rc, err := announce.NewReceiver(h, "", announce.WithTopic(topic), announce.WithResend(true), announce.WithAllowPeer(func(p peer.ID) bool { return p != deniedID }))
+						if err != nil {
+							panic(err)
+						}
+						defer func() {
+							rc.Close()
+							topic.Close()
+							psCancel()
+							h.Close()
+							// gossipsub has background loops that sleep between rounds and
+							// see their cancelled context only when they wake: let virtual
+							// time pass (instantaneous) so that they can end
+							time.Sleep(30 * time.Minute)
+							synctest.Wait()
+							// what is still there? only a goroutine of this library counts
+							buf := make([]byte, 1<<20)
+							buf = buf[:runtime.Stack(buf, true)]
+							for _, g := range strings.Split(string(buf), "\n\n") {
+								if !strings.Contains(g, "synctest bubble") || strings.Contains(g, "c09.layer4") {
+									continue
+								}
+								if strings.Contains(g, "github.com/ipni/go-libipni/") {
+									if bad == "" {
+										bad, cls = "a goroutine of the library is still running after Receiver.Close: "+strings.SplitN(g, "\n", 2)[0], "library-goroutine-left"
+									}
+								} else if !strings.Contains(g, "testingSynctestTest") {
+									thirdParty++
+								}
+							}
+						}()
+						next := func() (bool, announce.Announce) {
+							ctx, cancel := context.WithCancel(context.Background())
+							defer cancel()
+							type res struct {
+								a   announce.Announce
+								err error
+							}
+							ch := make(chan res, 1)
+							go func() { a, err := rc.Next(ctx); ch <- res{a, err} }()
+							synctest.Wait()
+							select {
+							case x := <-ch:
+								return x.err == nil, x.a
+							default:
+								cancel()
+								<-ch
+								return false, announce.Announce{}
+							}
+						}
+						seen := map[int]bool{}
+						cidNo := 0
+						for k, si := range seq {
+							sy := syms[si]
+							if !sy.repeatCid || cidNo == 0 {
+								cidNo++
+							}
+							c := cidN(7000 + cidNo)
+							src := sy.author
+							if sy.origin != 0 {
+								src = sy.origin
+							}
+							if sy.direct {
+								if err := rc.Direct(context.Background(), c, peer.AddrInfo{ID: idents[sy.origin].ID}); err != nil {
+									bad, cls = fmt.Sprintf("step %d %s: Direct failed: %v", k, sy.name, err), "direct-error"
+									return
+								}
+							} else {
+								var data []byte
+								if sy.malformed {
+									data = []byte{0x83, 0xff, 0x00}
+								} else {
+									m := message.Message{Cid: c}
+									if sy.origin != 0 {
+										m.OrigPeer = idents[sy.origin].ID.String()
+									}
+									var buf bytes.Buffer
+									if err := m.MarshalCBOR(&buf); err != nil {
+										panic(err)
+									}
+									data = buf.Bytes()
+								}
+								au := idents[sy.author]
+								if err := topic.Publish(context.Background(), data, pubsub.WithSecretKeyAndPeerId(au.Priv, au.ID)); err != nil {
+									bad, cls = fmt.Sprintf("step %d %s: publish failed: %v", k, sy.name, err), "harness-publish"
+									return
+								}
+							}
+							synctest.Wait()
+							ownRepublication := !sy.direct && sy.author == iSelf && sy.origin != 0
+							want := !sy.malformed && !ownRepublication && src != iDenied && !seen[cidNo]
+							if want || (!sy.malformed && !ownRepublication && src != iDenied) {
+								seen[cidNo] = true
+							}
+							got, a := next()
+							if got != want {
+								bad = fmt.Sprintf("step %d %s: delivered=%v, expected %v", k, sy.name, got, want)
+								switch {
+								case ownRepublication:
+									cls = "own-republication-delivered"
+								case src == iDenied || sy.author == iDenied:
+									cls = "allow-filter-not-applied-to-original-peer"
+								case sy.direct:
+									cls = "direct-with-resend"
+								default:
+									cls = "wrong-delivery"
+								}
+								return
+							}
+							if got && (a.PeerID != idents[src].ID || !a.Cid.Equals(c)) {
+								who := "someone else"
+								for i, id := range idents {
+									if id.ID == a.PeerID {
+										who = []string{"self", "F", "R (the relay)", "O", "denied"}[i]
+									}
+								}
+								bad, cls = fmt.Sprintf("step %d %s: delivered announcement is attributed to %s, expected %s", k, sy.name, who, []string{"self", "F", "R", "O", "denied"}[src]), "wrong-attribution"
+								return
+							}
+							// a direct announcement with resend must produce exactly one delivery
+							if extra, _ := next(); extra {
+								bad, cls = fmt.Sprintf("step %d %s: a second announcement was delivered", k, sy.name), "delivered-twice"
+								return
+							}
+						}
+					})
+				}()
+				if thirdParty > 0 {
+					r.Count("third_party_goroutines_left_after_teardown", int64(thirdParty))
+				}
+				if bad != "" {
+					r.Violation("pubsub:"+cls, key, fmt.Sprintf("sequence [%s]: %s", strings.Join(names, "; "), bad), nil)
+					r.Outcome("pubsub-mismatch")
+				} else {
+					r.Outcome("pubsub-agrees")
+					if len(seq) == depth {
+						r.Sample(map[string]any{"pubsub_sequence": names})
+					}
+				}
+			}
+		}
+		if len(seq) == depth {
+			return
+		}
+		for i := range syms {
+			rec(append(seq[:len(seq):len(seq)], i))
+		}
+	}
+	rec(nil)
+}
+
 func TestCheck(t *testing.T) {
 	r := vp.New("C09", "model_checking",
-		"three layers, all against one reference model (allow predicate, then an LRU set with refresh-on-hit and explicit removal): (1) the LRU object (test-only export) at capacities 1..3 over capacity+2 strings: every sequence of exactly `depth` update/remove operations, return value and length compared after every step; (2) the real receiver (no pubsub) at its real capacity: a fill prefix of exactly capacity distinct CIDs (three variants: plain, one refreshed in the middle, one un-cached and re-announced) followed by every sequence of <= N operations over {announce oldest / second-oldest / newest / a fresh CID / a fresh CID from a denied peer / the oldest CID from a denied peer / the CID evicted last, un-cache oldest / newest}; after each announcement a consumer calls Next and quiescence in a synctest bubble decides delivered / not delivered; (3) every address list of <= M over 12 addresses (public, private ranges, loopback, unspecified, unique-local, localhost) with filtering on and off. states = distinct sequences; transitions = operations; traces = sequences executed on the real code.",
-		"reference model is the oracle (trusted, 30 lines); receiver without pubsub: attribution of republished pubsub messages and ignoring own republications are not covered by this check",
+		"three layers, all against one reference model (allow predicate, then an LRU set with refresh-on-hit and explicit removal): (1) the LRU object (test-only export) at capacities 1..3 over capacity+2 strings: every sequence of exactly `depth` update/remove operations, return value and length compared after every step; (2) the real receiver (no pubsub) at its real capacity: a fill prefix of exactly capacity distinct CIDs (three variants: plain, one refreshed in the middle, one un-cached and re-announced) followed by every sequence of <= N operations over {announce oldest / second-oldest / newest / a fresh CID / a fresh CID from a denied peer / the oldest CID from a denied peer / the CID evicted last, un-cache oldest / newest}; after each announcement a consumer calls Next and quiescence in a synctest bubble decides delivered / not delivered; (3) every address list of <= M over 12 addresses (public, private ranges, loopback, unspecified, unique-local, localhost) with filtering on and off; (4) the pubsub path: every sequence of <= K messages over {plain from F, republished by relay R for origin O, republished for a denied origin, plain from a denied peer, republished by a denied relay for O, own republication, malformed payload, direct announcement with resend, repeats of the previous CID}, delivery / non-delivery and attribution decided by quiescence. states = distinct sequences; transitions = operations; traces = sequences executed on the real code.",
+		"reference model is the oracle (trusted, 30 lines)",
+		"pubsub path (layer 4): one libp2p host without transports and one gossipsub topic inside a synctest bubble; messages are injected on the topic under arbitrary author identities; multi-host gossip is not driven",
 		"non-public is judged by net.IP.IsLoopback/IsPrivate/IsUnspecified and the name localhost, independently of go-multiaddr's own classification",
 	)
 	defer func() {
@@ -437,13 +671,14 @@ func TestCheck(t *testing.T) {
 		}
 	}()
 	thorough := vp.Thorough()
-	d1, d2, d3 := 6, 3, 2
+	d1, d2, d3, d4 := 6, 3, 2, 2
 	if thorough {
-		d1, d2, d3 = 7, 4, 3
+		d1, d2, d3, d4 = 7, 4, 3, 3
 	}
-	r.Bounds(map[string]any{"lru_depth": d1, "receiver_depth": d2, "address_list_length": d3, "receiver_capacity": announce.VerifAnnounceCacheSize})
+	r.Bounds(map[string]any{"lru_depth": d1, "receiver_depth": d2, "address_list_length": d3, "pubsub_depth": d4, "receiver_capacity": announce.VerifAnnounceCacheSize})
 	layer1(r, d1)
 	layer2(t, r, d2)
 	layer3(t, r, d3)
+	layer4(t, r, d4)
 	t.Logf("violations: %d", r.Violations())
 }
